@@ -1353,6 +1353,27 @@ def gen_C06_nodes(rng, nops=None, pool=None, mm=None):
     return "\n".join(L) + "\n"
 
 
+def gen_levels(rng):
+    """the level arithmetic on arbitrary ints (short of the values whose negation or
+    successor overflows): isLevelAbove, MXD_levels, MDD_levels on the C++ side, the
+    definitions generated from them on the model side"""
+    L = ["init"]
+    M = (1 << 31) - 2
+    pool = [0, 1, -1, 2, -2, 3, -3, M, -M, M - 1, -(M - 1), 1 << 30, -(1 << 30)]
+    for _ in range(40):
+        def pick():
+            r = rng.random()
+            if r < 0.4:
+                return rng.choice(pool)
+            if r < 0.8:
+                return rng.randint(-12, 12)
+            return rng.randint(-M, M)
+        a = pick()
+        b = rng.choice([a, -a, pick(), pick()])
+        L.append("lvl %d %d" % (a, b))
+    return "\n".join(L) + "\n"
+
+
 def gen_C02_nodes_mm(rng):
     """node-level churn with nodes of many different sizes (levels of 2..7 values, so that
     the chunks of the node storage differ in length) on the hole-keeping memory managers:
